@@ -14,9 +14,11 @@ import (
 	"runtime"
 	"strings"
 	"sync"
+	"sync/atomic"
 	"testing"
 
 	jp "github.com/jmespath/go-jmespath"
+	"pgregory.net/rapid"
 
 	"verifharness/ref"
 )
@@ -680,4 +682,251 @@ func TestC13NilRoots(t *testing.T) {
 	st.mu.Lock()
 	st.Exhaustive["C13.nil-roots"] = fmt.Sprintf("%d expressions that look at the root x %d root documents that are nil, typed nil or zero: %d cases, compiled (twice) against one-shot", len(nilRootExprs), len(nilRootDocs()), n)
 	st.mu.Unlock()
+}
+
+// ---------------------------------------------------------------------------
+// Round 25 (performance work): fast paths are written for the inputs a benchmark uses.
+
+// TestC15SortIdioms: "the last of the sorted" and its relatives, where ties exist: sort_by is
+// stable, so its last element is the last of those with the largest key, which max_by (the
+// first of them) is not. Both laws of C15, with and without redundant parentheses.
+func TestC15SortIdioms(t *testing.T) {
+	xs := []string{"sort_by(ranked, &r)", "sort_by(people, &age)", "sort_by(people, &name)", "sort(nums)", "sort(strs)", "sort_by(ranked, &v)", "reverse(sort_by(ranked, &r))", "sort_by(ranked[*], &r)", "ranked | sort_by(@, &r)", "sort_by(lists, &length(@))", "sort(sorted)", "sort_by(ranked, &to_string(r))"}
+	bs := []string{"[-1]", "[0]", "[-1].v", "[1]", "[:1]", "[-2:]", "reverse(@)[0]", "length(@)", "[*].v | [-1]", "[-1] | v", "max_by(@, &r)", "min_by(@, &r)", "[?r == `2`] | [-1]", "[::-1][0]", "[-1:][0]"}
+	n := 0
+	for _, d := range reprDocs {
+		for _, x := range xs {
+			for _, b := range bs {
+				run(t, Case{Property: "C15", Kind: "pipe", Expr: x, Doc: d, Extra: map[string]interface{}{"b": b, "cell": "sort-idiom"}})
+				ctx := "%s | " + b
+				if strings.HasPrefix(b, "[") && !strings.Contains(b, "|") && !strings.Contains(b, "@") {
+					ctx = "%s" + b
+				}
+				run(t, Case{Property: "C15", Kind: "subst", Expr: x, Doc: d, Extra: map[string]interface{}{"ctx": ctx, "cell": "sort-idiom"}})
+				n += 2
+			}
+		}
+	}
+	st := statsFor("C15")
+	st.mu.Lock()
+	st.Exhaustive["C15.sort-idioms"] = fmt.Sprintf("%d sorted sub-expressions (keys with ties) x %d continuations x %d documents, pipe law and literal substitution: %d cases", len(xs), len(bs), len(reprDocs), n)
+	st.mu.Unlock()
+}
+
+// TestC11LateErrors: an error that arises only for a later element of an array, under a
+// consumer that needs only the first elements (or none): every element is evaluated all the same.
+func TestC11LateErrors(t *testing.T) {
+	prop := envStr("VERIF_PROP", "C11")
+	ps := []string{"l[?abs(n) > `0`]", "l[*].abs(n)", "map(&abs(n), l)", "l[].abs(n)", "sort_by(l, &abs(n))", "l[?n == `-1` || abs(n)]", "l[?abs(n) > `0`].id", "l[?id].abs(n)", "l[*].[abs(n)]", "l[*].{a: abs(n)}", "max_by(l, &abs(n))", "l[1:].abs(n)", "l[::-1].abs(n)",
+		"l[?nosuch(n)]", "l[*].length(n)", "l[?n > `0`].abs(id)", "l[*].n | [?abs(@) > `0`]", "l[*].n[::0]", "m.*.abs(n)"}
+	cs := []string{"%s | [0]", "(%s)[0]", "%s[0]", "%s | [0] | @", "%s[:1]", "%s | [-1]", "length(%s)", "not_null(%s)", "%s || `1`", "%s && `1`", "[%s][0]", "contains(%s, `1`)", "%s | [?@]", "%s == `[]`", "{a: %s}.a", "type(%s)", "%s[:0]", "%s | `1`", "%s | [0:0]", "to_array(%s)[0]", "reverse(%s)[0]", "%s[0] || `1`", "not_null(`1`, %s)"}
+	docs := []string{`{"l":[{"n":-1,"id":"a"},{"n":"oops","id":"b"}],"m":{"x":{"n":1},"y":{"n":"oops"}}}`, `{"l":[{"n":1,"id":"a"},{"n":2,"id":"b"},{"n":[],"id":"c"}],"m":{"x":{"n":[]}}}`, `{"l":[{"n":1,"id":"a"},{"n":null,"id":"b"},{"n":3,"id":"c"}],"m":{}}`}
+	n := 0
+	for _, d := range docs {
+		for _, p := range ps {
+			for _, c := range cs {
+				run(t, Case{Property: prop, Kind: "diff", Expr: strings.Replace(c, "%s", p, -1), Doc: d, Extra: map[string]interface{}{"cell": "late-error"}})
+				n++
+			}
+		}
+	}
+	st := statsFor(prop)
+	st.mu.Lock()
+	st.Exhaustive[prop+".late-errors"] = fmt.Sprintf("%d producers whose error arises for a later element x %d consumers that need only the first (or no) element x %d documents: %d cases", len(ps), len(cs), len(docs), n)
+	st.mu.Unlock()
+}
+
+// ---------------------------------------------------------------------------
+// The value of a document does not depend on which of its parts share memory. Documents built
+// by a program (not decoded) often hold views of one array (all, all[:2], all[1:]) and one map
+// under several keys; every expression must give what it gives on a copy without any sharing.
+
+func aliasedDocs() []interface{} {
+	all := []interface{}{1.0, 2.0, 3.0}
+	m := map[string]interface{}{"k": 1.0, "l": all[:1]}
+	strs := []interface{}{"b", "a", "c", "a"}
+	objs := []interface{}{map[string]interface{}{"n": 2.0}, map[string]interface{}{"n": 1.0}, map[string]interface{}{"n": 2.0}}
+	return []interface{}{
+		map[string]interface{}{"all": all, "top": all[:2], "tail": all[1:], "same": all, "none": all[:0], "m": m, "m2": m, "nested": []interface{}{all[:1], all[:2], all, all[1:]}, "strs": strs, "first": strs[:2], "objs": objs, "objs2": objs[:2], "o": objs[0], "o2": objs[0]},
+		[]interface{}{all, all[:2], all, m, m, all[2:]},
+	}
+}
+
+var aliasedExprs = []string{"top == all", "all == top", "top != all", "tail == all", "same == all", "none == all", "none == `[]`", "nested[0] == nested[1]", "nested[1] == top", "contains(nested, top)", "contains(nested, all)", "nested[?@ == `[1,2]`]", "nested[?@ == top]", "[top, all] | [0] == [1]", "m == m2",
+	"sort_by(nested, &length(@))", "top < all", "!(top == all)", "top == all && `1`", "top == all || `0`", "nested[*] == nested[*]", "first == strs", "strs[:2] == first", "objs2 == objs", "objs[:2] == objs2", "o == o2", "objs[0] == objs[2]", "objs[?@ == o]", "[@[0] == @[1], @[0] == @[2], @[3] == @[4]]",
+	"@[1] == @[0]", "contains(@, @[1])", "[top, all]", "merge(m, m2)", "reverse(top)", "sort(first)", "sort_by(objs2, &n)", "max_by(objs, &n)", "length(top)", "top[-1]", "nested[*][-1]", "nested[]", "to_string(nested)", "join('', first)", "[top, tail][]", "all[?@ > `1`] == tail", "all[1:] == tail", "all[:2] == top",
+	"map(&@ == top, nested)", "nested[?length(@) == `2`] | [0] == top", "not_null(none, top)", "top || all", "none || all", "none && all", "!none", "[?@ == @]", "*", "keys(@)", "values(@) | length(@)"}
+
+func init() { predicates["aliased"] = predAliased }
+
+func predAliased(c Case) (r Result) {
+	expr := c.expr()
+	idx := 0
+	if v, ok := c.Extra["doc"].(float64); ok {
+		idx = int(v)
+	}
+	docs := aliasedDocs()
+	if idx < 0 || idx >= len(docs) {
+		r.Discard = "HARNESS:bad-doc-index"
+		return
+	}
+	doc := docs[idx]
+	plain := ref.DeepCopy(doc) // no sharing left
+	n, st, perr := ref.ParseText(expr)
+	if perr != nil || st != ref.LexOK {
+		r.Discard = "generator:not-a-sentence"
+		return
+	}
+	ev := &ref.Ev{}
+	want, werr := ev.Eval(n, ref.DeepCopy(plain))
+	got := libSearch(expr, doc)
+	two, _ := libCompileSearchTwice(expr, doc)
+	for _, o := range []libOut{got, two} {
+		if o.Panic != nil {
+			r.Violation = "Search panicked on a document whose parts share memory"
+			r.Got = showOut(o)
+			return
+		}
+		if !reflect.DeepEqual(doc, plain) {
+			r.Violation = "Search modified a document whose parts share memory"
+			r.Expected, r.Got = show(plain), show(doc)
+			return
+		}
+		if ev.Ambiguous {
+			continue
+		}
+		if (o.Err != nil) != (werr != nil) || (werr == nil && !ref.Matches(o.Val, want)) {
+			r.Violation = "the result depends on which parts of the document share memory"
+			r.Expected, r.Got = show(want), showOut(o)
+			return
+		}
+	}
+	r.Nontrivial = true
+	return
+}
+
+// TestAliasedDocs (VERIF_PROP = C07, C06, C09).
+func TestAliasedDocs(t *testing.T) {
+	prop := envStr("VERIF_PROP", "C07")
+	n := 0
+	for i := range aliasedDocs() {
+		for _, e := range aliasedExprs {
+			for _, ctx := range []string{"%s", "[%s, %s]", "@ | %s"} {
+				run(t, withExpr(Case{Property: prop, Kind: "aliased", Extra: map[string]interface{}{"doc": float64(i)}}, strings.Replace(ctx, "%s", e, -1)))
+				n++
+			}
+		}
+	}
+	st := statsFor(prop)
+	st.mu.Lock()
+	st.Exhaustive[prop+".aliased-docs"] = fmt.Sprintf("%d expressions x 3 contexts x %d Go-built documents whose arrays and objects share memory (prefix, suffix and empty views of one array, one map under two keys): %d cases against the reference model on an unshared copy", len(aliasedExprs), len(aliasedDocs()), n)
+	st.mu.Unlock()
+}
+
+// ---------------------------------------------------------------------------
+// C12: struct types the process has never seen, first touched by several goroutines at once
+// (anything the library learns about a type - a field table, a method set - is learnt then).
+
+func init() { predicates["freshstruct"] = predFreshStruct }
+
+var freshTypeCounter int64
+
+func predFreshStruct(c Case) (r Result) {
+	breadcrumb(c)
+	const G = 8
+	rounds := 24
+	r.Nontrivial = true
+	for round := 0; round < rounds; round++ {
+		id := atomic.AddInt64(&freshTypeCounter, 1)
+		// a type of its own: the field names make it distinct from every type built before
+		fa, fb := fmt.Sprintf("Alpha%d", id), fmt.Sprintf("Beta%d", id)
+		inner := reflect.StructOf([]reflect.StructField{{Name: fa, Type: reflect.TypeOf("")}, {Name: "Tags", Type: reflect.TypeOf([]string{})}})
+		outer := reflect.StructOf([]reflect.StructField{{Name: fb, Type: reflect.PtrTo(inner)}, {Name: fa, Type: reflect.TypeOf(0.0)}, {Name: "Items", Type: reflect.SliceOf(inner)}})
+		iv := reflect.New(inner)
+		iv.Elem().Field(0).SetString(fmt.Sprintf("value-%d", id))
+		iv.Elem().Field(1).Set(reflect.ValueOf([]string{"t1", "t2"}))
+		ov := reflect.New(outer)
+		ov.Elem().Field(0).Set(iv)
+		ov.Elem().Field(1).SetFloat(float64(id))
+		ov.Elem().Field(2).Set(reflect.Append(reflect.MakeSlice(reflect.SliceOf(inner), 0, 2), iv.Elem(), iv.Elem()))
+		doc := ov.Interface()
+		la, lb := "alpha"+fmt.Sprint(id), "beta"+fmt.Sprint(id)
+		exprs := []string{lb + "." + la, la, "Items[*]." + la, lb + ".Tags[0]", "Items[1].Tags[-1]", "[" + la + ", " + lb + "." + la + "]", "Items[?" + la + "]." + la, "length(Items)"}
+		wants := []string{fmt.Sprintf(`"value-%d"`, id), fmt.Sprint(id), fmt.Sprintf(`["value-%d","value-%d"]`, id, id), `"t1"`, `"t2"`, fmt.Sprintf(`[%d,"value-%d"]`, id, id), fmt.Sprintf(`["value-%d","value-%d"]`, id, id), "2"}
+		var wg sync.WaitGroup
+		start := make(chan struct{})
+		outs := make([]libOut, G)
+		for g := 0; g < G; g++ {
+			wg.Add(1)
+			go func(g int) {
+				defer wg.Done()
+				<-start
+				e := exprs[g%len(exprs)]
+				outs[g] = libSearch(e, doc)
+			}(g)
+		}
+		close(start)
+		wg.Wait()
+		for g, o := range outs {
+			if o.Panic != nil || o.Err != nil {
+				r.Violation = "Search failed on a struct type first used by several goroutines at once"
+				r.Got = exprs[g%len(exprs)] + " => " + showOut(o)
+				return
+			}
+			nv, err := normalise(o.Val)
+			if err != nil || ref.Canon(nv) != wants[g%len(exprs)] {
+				r.Violation = "a concurrent first use of a struct type returned a different result than the same call made alone"
+				r.Expected, r.Got = wants[g%len(exprs)], exprs[g%len(exprs)]+" => "+showOut(o)
+				return
+			}
+		}
+	}
+	return
+}
+
+// TestC12FreshStructTypes: run under the race detector.
+func TestC12FreshStructTypes(t *testing.T) {
+	for i := 0; i < 12; i++ {
+		run(t, Case{Property: "C12", Kind: "freshstruct", Expr: "@", Extra: map[string]interface{}{"batch": float64(i)}})
+	}
+}
+
+// TestC14NumberTexts: number literals as texts (up to 25 integer digits, fractions, exponents):
+// the literal denotes the value the standard library reads from the same text.
+func TestC14NumberTexts(t *testing.T) {
+	rapid.Check(t, func(t *rapid.T) {
+		var sb strings.Builder
+		if uni(t, 3, "neg") == 0 {
+			sb.WriteByte('-')
+		}
+		nd := 1 + uni(t, 25, "intDigits")
+		for i := 0; i < nd; i++ {
+			d := uni(t, 10, "digit")
+			if i == 0 && nd > 1 && d == 0 {
+				d = 1 + uni(t, 9, "lead")
+			}
+			if i > 0 && uni(t, 3, "nines") == 0 {
+				d = []int{9, 0, 5}[uni(t, 3, "nz5")]
+			}
+			sb.WriteByte(byte('0' + d))
+		}
+		if uni(t, 3, "frac") == 0 {
+			sb.WriteByte('.')
+			for i, nf := 0, 1+uni(t, 20, "fracDigits"); i < nf; i++ {
+				sb.WriteByte(byte('0' + uni(t, 10, "fdigit")))
+			}
+		}
+		if uni(t, 4, "exp") == 0 {
+			sb.WriteString([]string{"e", "E", "e+", "e-", "E-"}[uni(t, 5, "expMark")])
+			sb.WriteString(fmt.Sprint(uni(t, 30, "expV")))
+		}
+		text := sb.String()
+		v, err := ref.ParseJSON(text)
+		if err != nil {
+			t.Skip("beyond float64")
+		}
+		pad := []string{"", "", " ", "\n"}[uni(t, 4, "pad")]
+		run(t, Case{Property: "C14", Kind: "literal", Expr: "`" + pad + text + pad + "`", Doc: ref.Canon(v)})
+		run(t, Case{Property: "C14", Kind: "literal", Expr: "`[" + text + "," + pad + text + "]`", Doc: "[" + ref.Canon(v) + "," + ref.Canon(v) + "]"})
+	})
 }
